@@ -18,7 +18,7 @@ def run(tier, only=None):
     tlc.require_ok(res)
     R.add_tlc(res)
     depth = 2 if tier == "quick" else 3
-    behs, types = lawcheck.behaviours(R, ["Halve", "Unhalve", "Mirror", "ScaleLen", "Translate", "Permute", "Reorder"], lawcheck.ALL_BASE, depth, factors="{<<2, 1>>}", must_contain={"Halve", "Unhalve"})
+    behs, types = lawcheck.behaviours(R, ["Halve", "Unhalve", "Mirror", "ScaleLen", "Translate", "Permute", "Reorder"], lawcheck.ALL_BASE, depth, factors="{<<2, 1>>}", must_contain={"Halve", "Unhalve"}, keep=300 if tier == "quick" else 3000)
     lawcheck.replay_all(R, "C04", behs, limit=300 if tier == "quick" else 3000)
     for r in check_exc(pmap(halve_as.run_job, halve_as.jobs(tier))):
         R.replayed += 1
